@@ -239,7 +239,7 @@ _NCHUNK = 12
 
 def _chunk_case(name, structs, nn, tier):
     @case("C05", name, _all_names(nn), mode="field", functions=FUN, tier=tier, spare=2, oracle=False, max_paths=4,
-          assumptions=["list(set_of_small_ints) is ascending in CPython (axis bookkeeping of add_node)"])
+          assumptions=["ranks <= 4 per node here; the index ORDER of add_node for higher ranks is the bounded case add_node.order.highrank"])
     def _(ctx):
         for st in structs:
             _check_structure(ctx, st)
@@ -251,6 +251,49 @@ for _i in range(_NCHUNK):
 for _i in range(4):
     _chunk_case("diagram.3nodes.q%02d" % _i, _S3[_i::4][:60], 3, "quick")
     _chunk_case("diagram.3nodes.t%02d" % _i, _S3[_i::4][60:], 3, "thorough")
+
+
+@case("C05", "add_node.order.highrank", [], kind="bounded", functions=["geometer.base.TensorDiagram.add_node", "geometer.base.TensorDiagram.add_edge", "geometer.base.TensorDiagram.calculate"],
+      bound="node ranks 0..20: every covariant subset for rank <= 11, 300 random subsets per rank above; extents 1 (order) and 2 on the contracted axes (value, ranks 9..12)")
+def add_node_order_highrank(ctx):
+    """'first still-unused index' must mean the smallest axis number for every rank (the per-node lists come from sets, whose iteration order is not
+    ascending once an element reaches the hash-table size)"""
+    gb, TCE = _b()
+    rnd = random.Random(5)
+    for r in range(0, 21):
+        if r <= 11:
+            subsets = [tuple(i for i in range(r) if m >> i & 1) for m in range(1 << r)]
+        else:
+            subsets = [tuple(sorted(rnd.sample(range(r), rnd.randint(0, r)))) for _ in range(300)]
+        for cov in subsets:
+            t = gb.Tensor(np.zeros((1,) * r), covariant=list(cov), tensor_rank=r) if r else gb.Tensor(np.zeros(()), tensor_rank=0)
+            ind = gb.TensorDiagram().add_node(t)
+            want = (list(cov), [i for i in range(r) if i not in cov])
+            ctx.ensure("add_node:unused-index-lists-ascending", (list(ind[0]), list(ind[1])) == want, witness=dict(rank=r, covariant=cov, got=(list(ind[0]), list(ind[1]))))
+    for r in range(9, 13):
+        for _ in range(12):
+            cov = sorted(rnd.sample(range(r), rnd.randint(2, 4)))
+            con = [i for i in range(r) if i not in cov]
+            shape = [1] * r
+            for i in cov[:2] + con[:1]:
+                shape[i] = 2
+            a = gb.Tensor(rnd_int_array(rnd, shape), covariant=cov, tensor_rank=r)
+            v = gb.Tensor(np.array([2, 3]), covariant=False)
+            w = gb.Tensor(np.array([5, 7]), covariant=True)
+            v2 = gb.Tensor(np.array([-1, 4]), covariant=False)
+            got = gb.TensorDiagram((a, v), (a, v2), (w, a)).calculate()
+            letters = "abcdefghijklmnopqrstuvwxyz"[:r]
+            x, y, z = letters[cov[0]], letters[cov[1]], letters[con[0]]
+            rest = [c for c in letters if c not in (x, y, z)]
+            out = [letters[i] for i in cov[2:]] + [letters[i] for i in con[1:]]
+            ref = np.einsum("%s,%s,%s,%s->%s" % (letters, x, y, z, "".join(out)), a.array, v.array, v2.array, w.array)
+            ok = got.array.shape == ref.shape and np.array_equal(got.array, ref) and got._covariant_indices == set(range(len(cov) - 2))
+            ctx.ensure("highrank:edges-use-the-first-unused-indices", ok, witness=dict(rank=r, covariant=cov, shape=shape))
+
+
+def rnd_int_array(rnd, shape):
+    n = int(np.prod(shape))
+    return np.array([rnd.randint(-5, 5) for _ in range(n)]).reshape(shape)
 
 
 # --------------------------------------------------------------------------------------------- wrappers
